@@ -1,8 +1,8 @@
-(** The history theorems of LemmasFD_History.v for the model of the real decoder (FrameDecoderInst.fd_run), through the
+(** The history theorems of LemmasFD_Since.v for the model of the real decoder (FrameDecoderInst.fd_run), through the
     refinement LemmasFD_Inst.fd_run_refines_sm: they hold from every decoder state with any buffer contents. *)
 From Coq Require Import NArith ZArith List Bool Lia.
 From M17 Require Import Bits ImplCRC ConstsCrc ImplFrameDecoder SpecFrames FrameDecoderInst
-  LemmasFD_Hidden LemmasFD_Refine LemmasFD_Inst LemmasFD_History.
+  LemmasFD_Hidden LemmasFD_Refine LemmasFD_Inst LemmasFD_Since.
 Import ListNotations.
 
 Definition fd_at (P : input -> obs -> Prop) (h : list input) (s : fd_state) (i : nat) : Prop :=
